@@ -109,10 +109,58 @@ def _solve_job(args):
         return o
 
 
+def _inputs_hash():
+    """hash of everything a unit result depends on: the repository sources, the verifier, the contracts and specs"""
+    if 'inputs_hash' in _G:
+        return _G['inputs_hash']
+    import hashlib
+    h = hashlib.sha256()
+    roots = [os.path.join(REPO, 'j1939'), os.path.join(VERIF, 'pyvc'), os.path.join(VERIF, 'contracts'), os.path.join(VERIF, 'specs')]
+    for root in roots:
+        for fn in sorted(os.listdir(root)):
+            if fn.endswith('.py'):
+                h.update(fn.encode())
+                h.update(open(os.path.join(root, fn), 'rb').read())
+    try:
+        import z3
+        h.update(z3.get_version_string().encode())
+    except Exception:
+        pass
+    _G['inputs_hash'] = h.hexdigest()
+    return _G['inputs_hash']
+
+
+def _cache_path(unit_name, tier):
+    import hashlib
+    k = hashlib.sha256(('%s|%s|%s' % (_inputs_hash(), unit_name, tier)).encode()).hexdigest()[:32]
+    return os.path.join(VERIF, '.cache', k + '.json')
+
+
 def run_units(unit_names, tier, jobs=None):
+    """Results of a unit are cached on disk under a key that covers every input (all files of /repo/j1939, pyvc, contracts,
+    specs, the tier): a unit that serves several properties is executed once per tree, not once per property.  The cache is
+    an optimisation only (PYVC_NO_CACHE=1 disables it; a missing cache is rebuilt); undecided results are never cached."""
     jobs = jobs or min(16, os.cpu_count() or 4)
     cfg = TIERS[tier]
     ctx = mp.get_context('fork')
+    use_cache = os.environ.get('PYVC_NO_CACHE', '0') != '1'
+    cached = []
+    if use_cache:
+        rest = []
+        for n in unit_names:
+            cp = _cache_path(n, tier)
+            if os.path.exists(cp):
+                try:
+                    r = json.load(open(cp))
+                    r['cached'] = True
+                    cached.append(r)
+                    continue
+                except Exception:
+                    pass
+            rest.append(n)
+        unit_names = rest
+    if not unit_names:
+        return cached
     # ---- phase A
     if len(unit_names) == 1 or jobs == 1:
         results = [_symex_job((n, tier)) for n in unit_names]
@@ -164,7 +212,20 @@ def run_units(unit_names, tier, jobs=None):
             o.pop('smt2', None)
             o.pop('smt2_lite', None)
             o.pop('smt2_mid', None)
-    return results
+    if use_cache:
+        os.makedirs(os.path.join(VERIF, '.cache'), exist_ok=True)
+        for r in results:
+            # only clean, fully decided results are reused
+            if r.get('error') or any(o.get('status') not in ('proved', 'refuted') and o['kind'] != 'cover' for o in r['obligations']):
+                continue
+            try:
+                tmp = _cache_path(r['unit'], tier) + '.tmp%d' % os.getpid()
+                with open(tmp, 'w') as f:
+                    json.dump(r, f, default=str)
+                os.replace(tmp, _cache_path(r['unit'], tier))
+            except Exception:
+                pass
+    return cached + results
 
 
 def main(argv=None):
